@@ -4,8 +4,10 @@
    `run init ops` = the state after an ARBITRARY list of operations (any interleaving of label creation, references of every
    displacement kind, binds, data, gaps, section switches, embedded labels, label deltas, layout+cross-section resolution). *)
 From Coq Require Import ZArith List Bool.
+From Verif Require Import A64.A64Tmpl A64.A64Sem.
+From VerifGen Require Import IsaA64Db.
 From Verif Require Import Codec.OffsetModel Labels.LabelsModel Labels.LabelsProofs Labels.LabelsExact Labels.LabelsAbs
-  Labels.FlatModel Labels.FlatLemmas Labels.FlatProofs Labels.SparseModel Labels.SparseProofs Labels.A64Dec.
+  Labels.FlatModel Labels.FlatLemmas Labels.FlatProofs Labels.SparseModel Labels.SparseProofs Labels.A64Dec Labels.A64DbTie.
 Import ListNotations.
 Local Open Scope Z_scope.
 
@@ -318,3 +320,42 @@ Theorem C03_a64_patched_meaning_witness :
             a64_site_target 4096 (Z.lor (a64_enc (set_imm i 0)) m) = Some (4096 + 1048572).
 Proof. exact a64_patched_meaning_witness. Qed.
 Print Assumptions C03_a64_patched_meaning_witness.
+
+(* ---- round 5: the structural decoder against C02's model of the assembler's words (the ISA-database rows of coq/gen/IsaA64Db.v: bit
+   templates + operand syntaxes).  a64_mn / a64_rid name the database mnemonic / row of an instruction, a64_ops its operands in C02's
+   language (registers by AsmJit id, condition by CondCode, ORel d / OLit d = "label at pc + d").  For every well-formed label-bearing
+   instruction the database row packs exactly those operands into exactly a64_enc i, and C02's inverse operand map reads them back. ---- *)
+Theorem C03_a64_db_agrees : forall i, a64_wf i -> a64_db_ok i ->
+  exists r, In r rows /\ r_id r = a64_rid i /\ r_mn r = a64_mn i /\
+            spec_row r (a64_ops i) = Some (a64_enc i) /\
+            tmatch (r_tmpl r) (a64_enc i) = true /\ decode_row r (a64_enc i) = a64_ops i.
+Proof. exact a64_db_agrees. Qed.
+Print Assumptions C03_a64_db_agrees.
+
+(* the displacement operand of a64_ops is the displacement the architectural reading (a64_target) adds to pc (ADRP: to Page(pc)) *)
+Theorem C03_a64_db_target : forall i pc,
+  disp_of (last (a64_ops i) (OImm 0 0)) = Some (a64_disp i) /\
+  a64_target pc i = ((match i with IAdr true _ _ => pc - pc mod 4096 | _ => pc end) + a64_disp i) mod 2 ^ 64.
+Proof. exact a64_db_target. Qed.
+Print Assumptions C03_a64_db_target.
+
+(* the word at a resolved reference (zero-displacement instruction OR encoded displacement off) IS the word C02's model assigns to the
+   instruction with the displacement operand off, and C02's decoder reads `off` back from it *)
+Theorem C03_a64_db_patched : forall i off m,
+  a64_wf (set_imm i 0) -> a64_db_ok i -> hole_ok (kind_of i) (a64_enc (set_imm i 0)) = true -> int64 off ->
+  encode_offset (fmt_of_kind (kind_of i)) off = Some m ->
+  let w := Z.lor (a64_enc (set_imm i 0)) m in
+  let i' := set_imm i (off / 2 ^ discard (fmt_of_kind (kind_of i))) in
+  exists r, In r rows /\ r_id r = a64_rid i /\ r_mn r = a64_mn i /\
+            spec_row r (a64_ops i') = Some w /\ decode_row r w = a64_ops i' /\
+            disp_of (last (a64_ops i') (OImm 0 0)) = Some off.
+Proof. exact a64_db_patched. Qed.
+Print Assumptions C03_a64_db_patched.
+
+Theorem C03_a64_db_patched_witness :
+  let i := ICb true false 5 0 in
+  a64_wf (set_imm i 0) /\ a64_db_ok i /\ hole_ok (kind_of i) (a64_enc (set_imm i 0)) = true /\
+  encode_offset (fmt_of_kind (kind_of i)) 1048572 = Some 8388576 /\
+  spec_rows rows (a64_mn i) [OGp true 5; ORel 1048572] = Some (a64_rid i, Z.lor (a64_enc (set_imm i 0)) 8388576).
+Proof. exact a64_db_patched_witness. Qed.
+Print Assumptions C03_a64_db_patched_witness.
